@@ -530,7 +530,7 @@ fn run_adv(case: &AdvCase, want_trace: bool) -> AdvResult {
         let peer = link.raw(1);
         let (got2, obs2, shared2, case2, peer2, link2) = (got.clone(), obs.clone(), shared.clone(), case.clone(), peer.clone(), link.clone());
         let script = async move {
-            let node = spawn_node(0, "a", REAL, None).await;
+            let node = spawn_node(0, "a@host", REAL, None).await;
             let mut probe_pids = vec![];
             let mut probes = vec![];
             for i in 0..2usize {
